@@ -39,6 +39,18 @@ func VerifC22Announce() {
 	if rt.Tier() > 0 {
 		k = 4
 	}
+	// optionally start from the settled state "both attached" (then one event fewer is explored)
+	if rt.Choose("startBothAttached", 2) == 1 {
+		sa = w.open("A", A, B)
+		sb = w.open("B", B, A)
+		rt.Quiesce()
+		k--
+		if rt.Tier() == 0 {
+			// quick: from the settled state the events are explored under one run-to-block schedule
+			// (the order-dependent announcement cases are reached from the empty state above)
+			rt.SchedBound(0, false)
+		}
+	}
 	n := rt.IntRange("events", 1, k)
 	for i := 0; i < n; i++ {
 		switch rt.Choose("event", 4) {
